@@ -55,10 +55,10 @@ def gen_cases(rng, tier, rnd):
                 if finite:
                     L = rng.choice([0, 1, 2, 3, 5, 8, 20, 100, 1000, max(0, m - 1), m, m + 1, m + 5])
                 else:
-                    # unbounded closures: the enumeration visits up to (2*limit+1)^n configurations
+                    # unbounded closures: the enumeration visits up to (2*limit+1)^n configurations; keep that below ~700
                     nn = min(nn, 4)
                     L = rng.choice({0: [0, 1, 2, 3, 5, 8, 12, 20], 1: [0, 1, 2, 3, 5, 8, 12, 20], 2: [0, 1, 2, 3, 5, 8, 12],
-                                    3: [0, 1, 2, 3, 5], 4: [0, 1, 2, 3]}[nn])
+                                    3: [0, 1, 2, 3], 4: [0, 1, 2]}[nn])
                 steps.append({'n': nn, 'limit': L})
             c['steps'] = steps
         elif kind == 'tm':
